@@ -21,7 +21,7 @@
        no file-system component: C17_deser_function_of_proto); on the implementation it is observed with
        audit hooks on every run (not a theorem). *)
 From Coq Require Import NArith List Bool Arith.
-From IRV Require Import Base.Exn C03.Model C03.Canon C03.Inv C17.Top.
+From IRV Require Import Base.Exn C03.Model C03.Canon C03.Inv C03.Tree C03.TreeF C03.PayFixDefs C03.IsoThmF C17.Top.
 Import ListNotations.
 Open Scope N_scope.
 
@@ -39,6 +39,18 @@ Print Assumptions C17_consistent.
 Theorem C17_deser_function_of_proto : forall p r1 r2, deser_model p = r1 -> deser_model p = r2 -> r1 = r2.
 Proof. intros; congruence. Qed.
 Print Assumptions C17_deser_function_of_proto.
+
+(* The re-serialization fixpoint for every proto whose deserialized IR is well scoped (serializable_tm: no
+   dangling / duplicated / empty value names; boolean, see C03/TreeF.v) — duplicated initializers or attributes,
+   stale or missing value_info, unsorted or cyclic node order, trailing empty outputs ... are all allowed.
+   np_idem: the leaf normalisation of value payloads is idempotent. *)
+Theorem C17_ser_fixpoint_partial :
+  forall np p h m,
+    deser_model p = Ok (h, m) -> serializable_tm np h m = true -> np_idem np = true ->
+    exists h1 q h' m' h'',
+      ser_model np h m = Ok (h1, q) /\ deser_model q = Ok (h', m') /\ ser_model np h' m' = Ok (h'', q).
+Proof. intros np p h m _ Hs Hi. exact (ser_deser_ser np h m Hs Hi). Qed.
+Print Assumptions C17_ser_fixpoint_partial.
 
 (* ---- non-vacuity: a malformed proto that IS accepted.  Names: 1 = "a", 2 = "b", 3 = "x", 4 = "zz".
    graph inputs [a; a] (duplicated), initializer for the input a, nodes in cyclic/unsorted order
